@@ -22,7 +22,8 @@ META = {
              "output, collapsed output, INDX coordinate words) are checked for wrap-around as well. "
              "Non-trivial: max or min within 1 of +-2^7,2^8,+-2^15,2^16,+-2^31,2^32,+-2^63,2^64; distinct by (max,min,form)"),
     "require": {"quick": ["pairs_partition", "insitu_calls", "consequence:indx_words_checked",
-                          "consequence:collapsed_output_checked"],
+                          "consequence:collapsed_output_checked", "consequence:to_array_after_in_place_code_change",
+                          "consequence:collapsed_over_255..257_columns"],
                 "thorough": ["pairs_partition", "pairs_random", "insitu_calls", "consequence:indx_words_checked",
                              "consequence:collapsed_output_checked"]},
     "exhaustive": {"quick": "threshold partition P x P' of the (max,min) plane (all powers of two +-1, k=0..64)",
@@ -213,7 +214,35 @@ def insitu(ctx, n):
     ctx.extra["insitu_wrapper_calls"] = patch.calls
 
 
+def collapse_many_columns(ctx, rng):
+    """collapsed() over exactly 255 / 256 / 257 (rarely 65536) columns: its per-row counter must hold
+    the number of columns."""
+    from ..gen import dense_to_index
+
+    ncols = int(rng.choice([255, 256, 257, 256, 65536] if rng.random() < 0.1 else [255, 256, 257, 256]))
+    nrows = 4
+    m = numpy.zeros((nrows, ncols), dtype=numpy.int64)
+    m[0, :] = 2                        # every column holds a non-common value ranking below the common one
+    m[1, : ncols // 2] = 1
+    m[2, 3] = 2
+    m[3, :] = 1
+    m[3, 0] = 2
+    idx = dense_to_index(m, 0)
+    prec = [1, 0, 2] if rng.random() < 0.5 else [1, 0, 3, 2]
+    got = idx.collapsed(prec).to_array(dtype=numpy.int64).tolist()
+    want = []
+    for r in range(nrows):
+        rowvals = set(m[r].tolist())
+        want.append(next((p for p in prec if p in rowvals), prec[-1]))
+    ctx.count("consequence:collapsed_over_%s_columns" % ("65536" if ncols == 65536 else "255..257"))
+    if got != want:
+        ctx.violation("insitu:collapsed-counter-wrapped:ncols=%d" % ncols,
+                      "collapsed(%r) over %d columns gives %r, expected %r" % (prec, ncols, got, want), {"ncols": ncols, "precedence": prec})
+
+
 def insitu_one(ctx, rng, i, k, idx, a2, vals, signed, io_):
+    if i % 10 == 3:
+        collapse_many_columns(ctx, rng)
     if True:
         if True:
             out = idx.to_array()                       # default dtype -> fit_dtype
@@ -227,6 +256,27 @@ def insitu_one(ctx, rng, i, k, idx, a2, vals, signed, io_):
             if not got <= set(prec):
                 ctx.violation("insitu:collapsed-wrapped", "collapsed(%r) produced values %r that are not in the precedence "
                               "list: the chosen output dtype wrapped them" % (prec, sorted(got - set(prec))[:4]), {"a": a2, "precedence": prec})
+            # the same index again after its set of codes has been changed IN PLACE (same number of entries,
+            # same common value): the dense output dtype must follow
+            if len(idx) >= 1 and i % 2 == 0:
+                key = list(dict.keys(idx))[0]
+                newcode = int(rng.choice([-1, -200, 300, 70000, 2 ** 33, 5]))
+                if all(newcode != kk[0] for kk in dict.keys(idx)) and newcode != idx.common:
+                    rows = dict.pop(idx, key)
+                    dict.__setitem__(idx, (newcode,) + tuple(key[1:]), rows)
+                    a3 = a2.copy()
+                    a3[(rows.astype(numpy.intp),) + tuple(key[1:])] = newcode
+                    out3 = idx.to_array()
+                    ctx.count("consequence:to_array_after_in_place_code_change")
+                    if not numpy.array_equal(out3.astype(object), a3.astype(object)):
+                        ctx.violation("insitu:to_array-wrapped", "after an in-place change of the codes to_array() (dtype %s) lost values" % out3.dtype, {"a": a3})
+                    exp3 = expected(min(int(a3.min()), int(idx.common)), max(int(a3.max()), int(idx.common)))
+                    if exp3 is not None and out3.dtype != exp3:
+                        ctx.violation("insitu:to_array-dtype-stale:%s" % ("too-wide" if out3.dtype.itemsize > exp3.itemsize else "wrong"),
+                                      "after an in-place change of the codes to_array() chose %s, the narrowest fitting dtype is %s" % (out3.dtype, exp3), {"a": a3})
+                    # undo, so that the rest of the workload sees the original index
+                    dict.pop(idx, (newcode,) + tuple(key[1:]))
+                    dict.__setitem__(idx, key, rows)
             # a mapping that renames the common value to something outside the range of the other values,
             # listed at a non-last position of the precedence
             far = int(rng.choice([300, 70000, -1, -200, 2 ** 33])) if max(abs(v) for v in vals) < 2 ** 62 else None
